@@ -29,12 +29,19 @@
                               its execution as the gateway model, and the validator run on real plans
                               (ProofsPlan2*.v, ProofsTv*.v); [sres_weq] same data, errors iff; [sres_peq] / [jperm]
                               same JSON value up to the order of object members, errors iff
-   Examples: Examples.v, ExamplesWf.v, ExamplesList.v, ExamplesAbstract.v, ExamplesPlan.v, ExamplesTv.v *)
+   - [ptree] / [rfield3] / [gateway3] / [tv3_static_b]  plan TREES: per position the client's items tagged with the
+                              fetch that resolves them and the entity fetches of the position (which earlier sources are
+                              asked for which representation fields -- several for @requires inputs of another
+                              subgraph --, subgraph, representation fields), nested to any depth; the root
+                              [__typename] answered by the gateway itself; execution and
+                              validator (ProofsPlan3*.v); [fuel_bound] fuel that always suffices without spreads
+   Examples: Examples.v, ExamplesWf.v, ExamplesList.v, ExamplesAbstract.v, ExamplesPlan.v, ExamplesTv.v, ExamplesTv3.v *)
 From Coq Require Import PeanoNat Lia.
 From Gv Require Import lib.Bytes lib.Json lib.Gql lib.Exec
      C01.ProofsBase C01.ProofsFuel C01.ProofsSplit C01.ProofsSim C01.ProofsJoin C01.ProofsOverlap C01.ProofsTwoStep
      C01.ProofsCtxBase C01.ProofsCtx C01.ProofsTwoStepWf C01.ProofsDedup C01.ProofsViol C01.ProofsListHop C01.ProofsListHopWf C01.ProofsListHopTn C01.ProofsAbstractHop C01.ProofsPlanAlg C01.ProofsPlan C01.ProofsPlanOk
-     C01.ProofsTvStatic C01.ProofsTvDefs C01.ProofsTvHidden C01.ProofsPlanGen C01.ProofsPlan2 C01.ProofsPlan2Link C01.ProofsPlan2Root C01.ProofsTvOrder C01.ProofsTvMain.
+     C01.ProofsTvStatic C01.ProofsTvDefs C01.ProofsTvHidden C01.ProofsPlanGen C01.ProofsPlan2 C01.ProofsPlan2Link C01.ProofsPlan2Root C01.ProofsTvOrder C01.ProofsTvMain
+     C01.ProofsFuelSuff C01.ProofsPlan3 C01.ProofsPlan3Keys C01.ProofsPlan3Fetch C01.ProofsPlan3Field C01.ProofsPlan3Step C01.ProofsPlan3Main.
 Open Scope N_scope.
 
 (* ---- E1: a result without XOutOfFuel does not change when more fuel is supplied ---- *)
@@ -962,3 +969,114 @@ Theorem plan_ok_valid_all_universes_execute :
   (gateway2 U sc subs frags vdsM supM eQ g0 f1 f2 tn ds).
 Proof. exact ProofsTvMain.tv2_sound_execute. Qed.
 Print Assumptions plan_ok_valid_all_universes_execute.
+
+(* ---- (6) translation validation of NESTED plans: plan trees (ProofsPlan3*.v), entity fetches below entity fetches,
+        several fetches per position, lists at any level; no fuel side condition on the results ---- *)
+
+(* 6a. fuel sufficiency: without fragment spreads, fuel [fuel_bound sc sels] = size * (2 * type depth + 3) + 1
+   is enough -- the result carries no XOutOfFuel (so E1 makes it the result at every larger fuel) *)
+Theorem exec_sels_fuel_sufficient :
+  forall (sc : schema) (U : universe) (vars : list (bytes * json)) (md : mode)
+         (f : nat) (objty : name) (ov : oval) (sels : list selection) (path : list pel),
+  sels_nospread sels = true ->
+  (fuel_bound sc sels <= f)%nat ->
+  no_oof (snd (exec_sels sc U [] vars md f objty ov sels path)) = true.
+Proof. exact ProofsFuelSuff.exec_sels_fuel_sufficient. Qed.
+Print Assumptions exec_sels_fuel_sufficient.
+
+Theorem execute_fuel_sufficient :
+  forall (f : nat) (sc : schema) (U : universe) (md : mode) (doc : document)
+         (opname : option name) (supplied : json),
+  doc_frags doc = [] ->
+  (forall o : operation, In o (doc_ops doc) -> sels_nospread (op_sels o) = true) ->
+  (doc_fuel_bound sc doc <= f)%nat ->
+  no_oof (rs_errs (execute f sc U md doc opname supplied)) = true.
+Proof. exact ProofsFuelSuff.execute_fuel_sufficient_doc. Qed.
+Print Assumptions execute_fuel_sufficient.
+
+(* 6b. one entity fetch of a plan tree: the _entities request for entity [e] (representation read from the members
+   [m] merged so far, planner __typename added and stripped when [tn]) returns the data the monolith computes for
+   the selection on [e], and has errors iff the monolith has *)
+Theorem plan_tree_fetch_one :
+  forall (U : universe) (sc : schema) (subs : list schema) (vdsM : list vardef)
+         (supM : list (bytes * json)) (eQ : entity) (f2 : nat) (tn : bool),
+  find_entity U (s_query sc) [] = Some eQ ->
+  forallb (fun vd : vardef => not_repr (vd_name vd)) vdsM = true ->
+  forall (T : name) (sel : list selection) (m : list (bytes * json)) (si : nat)
+         (ks : list name) (e : entity) (kq : nat),
+  In e U ->
+  en_type e = T ->
+  config_wf_b sc (sub_at sc subs si) = true ->
+  univ_ok_b (sub_at sc subs si) U = true ->
+  plain_sels sel ->
+  sels_nospread sel = true ->
+  sels_noent sel = true ->
+  req_ok_b (sub_at sc subs si) [] (pvars vdsM supM) not_repr kq T sel = true ->
+  repr_from ks m = repr_of e ks ->
+  find_by_repr U (repr_of e ks) = Some e ->
+  reqs_covered e sel ks = true ->
+  (fuel_bound sc sel + 10 <= f2)%nat ->
+  let X := exec_sels sc U [] (pvars vdsM supM) Mono f2 T {| ov_ent := e; ov_repr := None |} sel [] in
+  fst (fetch_one U sc subs [] vdsM supM f2 tn T sel m si ks) = fst X /\
+  (snd (fetch_one U sc subs [] vdsM supM f2 tn T sel m si ks) = [] <-> snd X = []).
+Proof. exact ProofsPlan3Fetch.fetch_one_spec. Qed.
+Print Assumptions plan_tree_fetch_one.
+
+(* 6c. the induction over plan trees, one level each: [PS_at k] = every statically accepted plan tree of depth <= k,
+   run at an entity of its type, agrees with the monolith on that entity; [FL_at k] = the same for one field
+   (object or list valued, ANY field value -- null, a non-list under a list type, errors) *)
+Theorem plan_tree_field_step :
+  forall (U : universe) (sc : schema) (subs : list schema) (vdsM : list vardef)
+         (supM : list (bytes * json)) (f2 kq : nat) (tn : bool) (decls : list (name * list name))
+         (rdecls : list rdecl) (k : nat),
+  PS_at U sc subs vdsM supM f2 kq tn decls rdecls k ->
+  FL_at U sc subs vdsM supM f2 kq tn decls rdecls (S k).
+Proof. exact ProofsPlan3Field.FL_step. Qed.
+Print Assumptions plan_tree_field_step.
+
+Theorem plan_tree_position_step :
+  forall (U : universe) (sc : schema) (subs : list schema) (vdsM : list vardef)
+         (supM : list (bytes * json)) (eQ : entity) (f2 kq : nat) (tn : bool)
+         (decls : list (name * list name)) (rdecls : list rdecl) (k : nat),
+  find_entity U (s_query sc) [] = Some eQ ->
+  forallb (fun vd : vardef => not_repr (vd_name vd)) vdsM = true ->
+  forallb (config_wf_b sc) subs = true ->
+  univ3_contract_b sc subs decls rdecls U = true ->
+  FL_at U sc subs vdsM supM f2 kq tn decls rdecls k ->
+  PS_at U sc subs vdsM supM f2 kq tn decls rdecls (S k).
+Proof. exact ProofsPlan3Step.PS_step. Qed.
+Print Assumptions plan_tree_position_step.
+
+(* 6d. THE THEOREM OF THE TREE VALIDATOR: tv3_static_b accepts the plan tree a real plan is translated to  ->
+   for EVERY universe of the contract (univ3_contract_b = univ_contract_b: subgraph schemas, declared keys,
+   declared @requires; plan independent) and every fuel >= ds_need (computable from the plan),
+   the gateway model returns exactly the data a single server over the supergraph returns for the client's
+   operation, and has errors iff that server has.  No no_oof hypothesis (6a). *)
+Theorem plan_tree_valid_all_universes :
+  forall (sc : schema) (subs : list schema) (vdsM : list vardef) (supM : list (bytes * json))
+         (kq : nat) (decls : list (name * list name)) (rdecls : list rdecl) (tn : bool)
+         (k : nat) (ds : list rfield3),
+  tv3_static_b sc subs [] vdsM supM kq decls rdecls k ds = true ->
+  forall (U : universe) (eQ : entity),
+  univ3_contract_b sc subs decls rdecls U = true ->
+  find_entity U (s_query sc) [] = Some eQ ->
+  forall F : nat,
+  (ds_need sc ds <= F)%nat ->
+  sres_weq (gateway3 U sc subs [] vdsM supM eQ F F tn k ds) (mono_client3 U sc [] vdsM supM eQ F ds).
+Proof. exact ProofsPlan3Main.tv3_sound. Qed.
+Print Assumptions plan_tree_valid_all_universes.
+
+Theorem plan_tree_valid_all_universes_execute :
+  forall (sc : schema) (subs : list schema) (vdsM : list vardef) (supM : list (bytes * json))
+         (kq : nat) (decls : list (name * list name)) (rdecls : list rdecl) (tn : bool)
+         (k : nat) (ds : list rfield3),
+  tv3_static_b sc subs [] vdsM supM kq decls rdecls k ds = true ->
+  forall (U : universe) (eQ : entity),
+  univ3_contract_b sc subs decls rdecls U = true ->
+  find_entity U (s_query sc) [] = Some eQ ->
+  forall F : nat,
+  (ds_need sc ds <= F)%nat ->
+  sres_weq (gateway3 U sc subs [] vdsM supM eQ F F tn k ds)
+           (sres_of_response (execute F sc U Mono (client_doc3 vdsM [] ds) None (JObj supM))).
+Proof. exact ProofsPlan3Main.tv3_sound_execute. Qed.
+Print Assumptions plan_tree_valid_all_universes_execute.
